@@ -1,3 +1,4 @@
 pub mod c01;
+pub mod c04;
 pub mod c17;
 pub mod c18;
